@@ -248,7 +248,7 @@ func c10GenBits(t *rapid.T, label string, nbits int, pct int) uint16 {
 
 func c10GenNet(t *rapid.T) c10Net {
 	n := c10Net{}
-	if rapid.IntRange(0, 9).Draw(t, "fixed") < 5 {
+	if rapid.IntRange(0, 9).Draw(t, "fixed") < 4 {
 		n.Fixed = true
 		n.Strategy = rapid.SampledFrom([]string{"TTL", "TTL", "TTL", "Never", ""}).Draw(t, "strategy")
 		if n.Strategy == "TTL" {
@@ -367,8 +367,8 @@ func c10GenLoop(t *rapid.T) c10Scenario {
 	}
 	if pct > 0 {
 		s.NthFail = rapid.SliceOfN(rapid.Custom(func(t *rapid.T) c10Nth {
-			return c10Nth{Kind: rapid.SampledFrom([]string{"Delete", "Delete", "Detach"}).Draw(t, "nthkind"), N: rapid.IntRange(1, 10).Draw(t, "nth")}
-		}), 0, 3).Draw(t, "nthfail")
+			return c10Nth{Kind: rapid.SampledFrom([]string{"Delete", "Delete", "Detach"}).Draw(t, "nthkind"), N: rapid.IntRange(1, 6).Draw(t, "nth")}
+		}), 0, 4).Draw(t, "nthfail")
 	}
 	for _, r := range raw {
 		kinds := c10KindsByState[state[r.P]]
